@@ -278,6 +278,12 @@ pub fn check_written(expected: &CClass, written: &[u8], obs: &mut Obs) -> Result
 }
 
 pub fn write_tree(tree: &duke::tree::class::ClassFile) -> Result<Vec<u8>, String> {
+	// history: a write that fails half way (a buffer of 40 bytes) must leave nothing behind that shows in the next write
+	{
+		let mut small = [0u8; 40];
+		let mut sink: &mut [u8] = &mut small[..];
+		let _ = crate::engine::no_panic(|| duke::write_class(&mut sink, tree).is_ok());
+	}
 	let mut buf = Vec::new();
 	match duke::write_class(&mut buf, tree) {
 		Ok(()) => {
